@@ -191,6 +191,20 @@ func ruleRC3() Rule {
 											gated = true
 										}
 									}
+									// or set to true under a test of the flag of an alias on the stack
+									// (`for … { if l.aliases[i].blank { blank = true; break } }`)
+									if tv, has := gi.Types[as.Rhs[0]]; has && tv.Value != nil && tv.Value.String() == "true" {
+										for _, gd := range guardsOf(c.P, as, nil) {
+											if !gd.pos {
+												continue
+											}
+											for _, rc := range conj(gd.cond) {
+												if core.FieldOf(gi, rc) == blankF {
+													gated = true
+												}
+											}
+										}
+									}
 								}
 								return true
 							})
